@@ -1,5 +1,7 @@
 """registry of implementation-side drivers (name, harness sources, build kwargs)"""
 MAIN_SOURCES = ['drv_main.cc', 'ops_base64.cc', 'ops_mime.cc', 'ops_net.cc', 'ops_headers.cc', 'ops_cookie.cc', 'ops_parser.cc', 'ops_router.cc', 'ops_async.cc']
+SCHED_SOURCES = ['drv_sched.cc']
 ALL = [
     ('drv_main', MAIN_SOURCES, {}),
+    ('drv_sched', SCHED_SOURCES, {}),
 ]
